@@ -73,6 +73,14 @@ def rf9(run):
             run.ob(rule, ('arity', r['line']), ok, {'opcode': code, 'pattern': r['pat'], 'operands matched': len(toks), 'arity': arity[code]})
             if not ok:
                 viol(r, 'arity', 'the pattern matches %d operands but %s has %d (the arity assertion is compiled out)' % (len(toks), code, arity[code]))
+        if code == 'MIR_ALLOCA':
+            # the size operand and the stack pointer are 64-bit values: every instruction of the replacement carries REX.W
+            for k_, i_ in enumerate(insns_of(r['rep'])):
+                ok = i_[0] == 'X'
+                run.ob(rule, ('alloca width', r['line'], k_), ok, {'opcode': code, 'instruction': ' '.join(i_), 'REX.W': ok})
+                if not ok:
+                    viol(r, '32-bit instruction in ALLOCA', 'instruction `%s` of the ALLOCA replacement has no REX.W marker: the size operand is '
+                         'truncated to 32 bits (alloca a, 0x100000010 hands out 16 bytes) while the interpreter uses all 64 bits' % ' '.join(i_))
         if sp is None:
             continue
         ins = insns_of(r['rep'])
